@@ -227,6 +227,10 @@ func Engine(v *vrt.Ctx) {
 	size := v.U32("outputsize")
 	v.Assume(size > 0 && size <= 4096)
 	cfg := engine.Config{Root: "root", FlagCount: 4, SessionId: "s1", OutputSize: size}
+	if v.Param("sep") == 1 {
+		// a configured menu separator of any length up to 255 bytes
+		cfg.MenuSeparator = v.Opaque("menu-separator", 'S', 1, 255)
+	}
 	en := engine.NewEngine(cfg, apps.Get(which))
 	for i := 0; i < k; i++ {
 		var in []byte
